@@ -81,6 +81,19 @@ def runHistory (pk : PublicKey) (sk : PrivateKey) (nu0 : Int) (time0 : Int) (ste
         out := out ++ [s!"{showRes res}:{w'.sacc.index}:{witnessValid pk w'}"]
         us := us ++ [hexOfInt w'.u]
       | _, _ => throw "unknown witness/update"
+    | "prepend" =>
+      let uid ← getStr st "u"
+      let lo ← getNat st "from"
+      let hi ← getNat st "to"
+      match h.updates.lookup uid with
+      | none => throw "unknown update"
+      | some u =>
+        let evs := (h.events.drop lo).take (hi + 1 - lo)
+        match u.prepend evs with
+        | some u' =>
+          h := { h with updates := (uid, u') :: h.updates.filter (·.1 ≠ uid) }
+          out := out ++ [s!"prepend-ok:{(u'.events.head?.map (·.index)).getD 0}"]
+        | none => out := out ++ ["prepend-err"]
     | "corruptw" =>
       let wid ← getStr st "w"
       match h.witnesses.lookup wid with
